@@ -37,12 +37,9 @@ def re_match_with_span(attr, value):
     if attr.pattern is None:
         return True
 
-    m = attr._pattern_re.match(value)
-    # if m:
-    #     print(m, m.span(), len(value))
-    # else:
-    #     print(m)
-    return (m is not None) and (m.span() == (0, len(value)))
+    # the whole string has to match: match() stops at the first alternative
+    # that matches a prefix and never tries the longer ones.
+    return attr._pattern_re.fullmatch(value) is not None
 
 
 class AnyXml(SimpleModel):
